@@ -33,31 +33,13 @@ def structural_side_check(run):
 
 
 def check(run):
-    if run.tier == 'quick':
-        others = BACKENDS[1:]
-        backends = ['ibig', others[run.seed % len(others)]]
-    else:
-        backends = BACKENDS
-    run.bound('backends checked this run: %s (thorough checks all four)' % ', '.join(backends))
+    backends = BACKENDS
+    run.bound('backends checked this run: %s' % ', '.join(backends))
     for b in backends:
         cands, P, code_det = insphere.check_backend(run, b, 'C11[%s]' % b, thorough=(run.tier == 'thorough'))
         if cands:
-            if b == 'ibig':
-                insphere.confirm_and_report(run, 'C11', cands, 'C11[%s]' % b)
-            else:
-                # only the ibig build is available natively; a differing polynomial in another backend is reported through
-                # the exact reference evaluated on the encoding (validated for ibig), not as a native replay
-                bad = [c for c in cands if insphere.py_sign(insphere.eval_term(code_det, P, c)) != insphere.exact_ref_sign(c)]
-                if bad:
-                    path = engine.save_replay('C11', {'kind': 'insphere_exact_backend', 'backend': b, 'points': bad[0],
-                                                      'expected_sign': insphere.exact_ref_sign(bad[0])})
-                    ok = replay(path)
-                    if ok == 1:
-                        run.violation('C11[%s]: predicate sign differs from the lifted determinant at %r' % (b, bad[0]), path)
-                    else:
-                        run.suspect.append('C11[%s]: encoding disagrees with the reference at %r but the native %s build does not' % (b, bad[0], b))
-                else:
-                    run.inconclusive.append('C11[%s]: determinant polynomial differs from the reference, no sign disagreement found' % b)
+            # native replay against a build of the replay crate with that backend feature
+            insphere.confirm_and_report(run, 'C11', cands, 'C11[%s]' % b, backend=b)
     structural_side_check(run)
     run.assume('each big-integer crate implements Z exactly (their arithmetic is not encoded)')
     run.assume('rug backend not buildable in this sandbox: outside the claim')
@@ -66,20 +48,4 @@ def check(run):
 
 def replay(path):
     """native replay against a build of the named backend (replay crate rebuilt with that feature)"""
-    import json, subprocess
-    d = json.load(open(path))
-    if d.get('kind') == 'insphere_exact':
-        return insphere.replay_file(path)
-    b = d['backend']
-    tgt = os.path.join(engine.CACHE, 'target-replay-%s' % b)
-    cmd = ['cargo', 'build', '--offline', '--target-dir', tgt, '--no-default-features', '--features', 'backend-' + b]
-    p = subprocess.run(cmd, cwd=engine.REPLAY_DIR, env=engine.ENV, capture_output=True, text=True)
-    if p.returncode != 0:
-        print(p.stderr[-2000:])
-        return 3
-    c = d['points']
-    line = 'insphere_exact ' + ' '.join(str(x) for nm in insphere.NAMES for x in c[nm])
-    out = subprocess.run([os.path.join(tgt, 'debug', 'vreplay')], input=line + '\n', capture_output=True, text=True).stdout.split()
-    n = int(float(out[1])) if out and out[0] == 'ok' else None
-    print('native[%s]=%r expected=%d' % (b, n, d['expected_sign']))
-    return 1 if n != d['expected_sign'] else 0
+    return insphere.replay_file(path)
